@@ -266,7 +266,7 @@ def main(tier, seed):
     cov["rule"] = ("every field action class x shape x init value; full BFS over storage with every "
                    "(w_stb, w_data, r_stb, set/clear/r_data) letter each cycle")
     cov["letters"] = "full product of all input values"
-    return finish(PID, tier, seed, "model_checking", cov, ASSUMPTIONS, t0, results)
+    return finish(PID, tier, seed, "model_checking", cov, ASSUMPTIONS, t0, results, min_explored=int(0.9 * len(results)))
 
 
 ASSUMPTIONS = [
